@@ -75,11 +75,11 @@ for _sf in (0x0B, 0x0C, 0x0D, 0x0E):
     RESP[(0x19, _sf)] = (["K S B { I3 B }"], 3, 7)
 
 # wire ranges (offset, width) after the service id that a positive response echoes from its request
-# and that the matcher therefore has to compare ("primary identifier"); DDDI: sub-function only (DDDID advisory)
+# and that the matcher therefore has to compare ("primary identifier"); DDDI: sub-function and the dynamicallyDefinedDataIdentifier (absent on both sides for clear-all)
 ECHO = {
     0x10: ["sf"], 0x11: ["sf"], 0x27: ["sf"], 0x28: ["sf"], 0x3E: [], 0x85: ["sf"],
     0x22: ["I2@1"], 0x2E: ["I2@1"], 0x2F: ["I2@1"], 0x31: ["sf", "I2@2"], 0x36: ["B@1"],
-    0x3D: ["B@1", "Isym@2", "Isym@2+"], 0x19: ["sf"], 0x2C: ["sf"], 0x14: [], 0x23: [], 0x34: [], 0x35: [], 0x37: [],
+    0x3D: ["B@1", "Isym@2", "Isym@2+"], 0x19: ["sf"], 0x2C: ["sf", "I2@2"], 0x14: [], 0x23: [], 0x34: [], 0x35: [], 0x37: [],
 }
 
 
